@@ -375,6 +375,11 @@ def check_state(im, site, discr, sched, n_interior, opi, request, atol=0.0):
         if tuple(np.shape(img)) != tuple(int(r) for r in res):
             raise Violation("image-shape==resolution", site, discr + ("/empty-in-collection" if q == 1 else "/in-collection"),
                             "image #%d of a collection has shape %r, resolution is %r; %s" % (q, np.shape(img), tuple(res), state), opi)
+    # ... and for an empty diagram handed over alone
+    img0 = im.transform(np.zeros((0, 2)), skew=False)
+    if tuple(np.shape(img0)) != tuple(int(r) for r in res):
+        raise Violation("image-shape==resolution", site, discr + "/empty-alone",
+                        "image of an empty diagram has shape %r, resolution is %r; %s" % (np.shape(img0), tuple(res), state), opi)
     return edge_probes(im, site, discr, sched, n_interior, opi)
 
 
